@@ -43,7 +43,7 @@ Verdict(rec) ==
         IF ~claimed \/ spec.st = "err" \/ res.st \notin {"ok", "null"} THEN "noclaim"
         ELSE LET exp == ConvOutTop(T, cv, d.K) IN
              IF IsErr(exp) THEN "noclaim"
-             ELSE IF d.st = "ok" THEN (IF Canon(T, d.gv) = Canon(T, exp) THEN "ok" ELSE "rt-value")
+             ELSE IF d.st = "ok" THEN (IF CanonK(T, d.K, d.gv) = CanonK(T, d.K, exp) THEN "ok" ELSE "rt-value")
              ELSE IF d.st = "err" THEN (IF OutMayErr(T, cv, d.K) THEN "ok" ELSE "rt-error")
              ELSE "rt-panic"
       decs == [i \in 1 .. Len(rec.decs) |-> DecV(rec.decs[i])]
